@@ -9,3 +9,18 @@ package iterators
 // consumer's state).
 //@ iface Iterator.Next
 //@   modifies *t
+
+// ---- C14: resource accounting (ghost state)
+//
+// opened()  number of log readers currently open
+// holds(it) number of open readers owned by the iterator value `it`
+
+//@ ghost state func opened() int
+//@ ghost state func holds(it any) int
+
+//@ iface Iterator.Close
+//@   modifies opened(), holds(self)
+//@   ensures[releases-what-it-holds] opened() == old(opened()) - old(holds(self)) && holds(self) == 0
+
+//@ iface Iterator.Err
+//@   modifies nothing
